@@ -7,7 +7,7 @@ Driver for C18.  Float arguments travel as the integer value of their IEEE-754 b
 
   fn        {"f": name, "a": [bits...]}                     a generated function of Gen/FnElectrolytes at Float -> bits
   is_list   {"b": [...], "z": [...], "warn": bool, "num": "rat" | "float"}   -> "<value> W|-"  | exception class name
-  is_dict   {"keys": [str...], "b": [...], "warn": bool, "num": ...}         -> the same
+  is_dict   {"keys": [str...], "b": [...], "warn": bool, "num": ..., optional "subs", "factory" (see getSubs/getFactory)} -> the same
   ap_lim    {"IS", "stoich": [...], "z": [...], "T", "eps", "rho"}           (Float) -> bits | IndexError
   ap_ext    {... "a": [...], "C"}     ap_dav {... "C"}
   cls_lim   {"stoich","z","T","eps","rho","c"}  -> "<bits> W|-" | exception ;  cls_ext {... "a", "C"}
@@ -63,6 +63,33 @@ def callFn (f : String) (a : Array Float) : Except String Float :=
   | "daviesLogGammaDC" => need 4 (daviesLogGammaDC a[0]! a[1]! a[2]! a[3]!)
   | _ => .error "!bad-arg:f"
 
+def getTable (v : Json) : Except String (List (List Char × Int)) := do
+  (← asArr v).mapM fun e => do
+    match (← asArr e) with
+    | [k, z] => pure ((← asStr k).toList, ← asInt z)
+    | _ => .error "!bad-arg:table"
+
+/-- "subs": absent | {"kind": "default"} | {"kind": "names", "s": str} | {"kind": "mapping", "t": [[key, charge], ...]} -/
+def getSubs (j : Json) : Except String Substances :=
+  match j.getObjVal? "subs" with
+  | .error _ => pure .default
+  | .ok v => do
+    match (← getStr v "kind") with
+    | "default" => pure .default
+    | "names" => pure (.names (← getStr v "s").toList)
+    | "mapping" => match v.getObjVal? "t" with
+      | .ok t => do pure (.mapping (← getTable t))
+      | _ => .error "!bad-arg:t"
+    | _ => .error "!bad-arg:subs"
+
+/-- "factory": absent (Substance.from_formula) | [[name, charge], ...] (a callback that looks the name up, KeyError otherwise) -/
+def getFactory (j : Json) : Except String (List Char → Except Err Int) :=
+  match j.getObjVal? "factory" with
+  | .error _ => pure formulaCharge
+  | .ok v => do
+    let t ← getTable v
+    pure (lookupCharge t)
+
 def h : Handler := fun op j =>
   match op with
   | "fn" => do
@@ -82,11 +109,11 @@ def h : Handler := fun op j =>
       | "rat" =>
           let b ← getRatList j "b"
           if b.length != keys.length then .error "!bad-arg:b" else
-          pure (showIS showRat (ionicStrengthDict (keys.zip b) warn))
+          pure (showIS showRat (ionicStrengthDictG (← getFactory j) (← getSubs j) (keys.zip b) warn))
       | "float" =>
           let b ← getFList j "b"
           if b.length != keys.length then .error "!bad-arg:b" else
-          pure (showIS bits (ionicStrengthDict (keys.zip b) warn))
+          pure (showIS bits (ionicStrengthDictG (← getFactory j) (← getSubs j) (keys.zip b) warn))
       | _ => .error "!bad-arg:num"
   | "ap_lim" => do
       pure (showAP (limitingActivityProduct (← getF j "IS") (← getFList j "stoich") (← getFList j "z")
